@@ -534,6 +534,11 @@ impl Path {
         r is Err ==> dfi_fold(input.0@, target_id.project_name) is None,
 //@end
 
+//@fn src/config/ir.rs transform_output#closure1 as=join_one_out params=`project_dir: &Path, path: &String` rty=`PathBuf` ret=r
+//@contract
+    ensures /*[C13.paths-bound]*/ r == path_join(project_dir.buf(), *path),
+//@end
+
 //@fn src/config/ir.rs transform_output#closure0 as=output_step params=`acc0: Resources, resource: OutputResource, project_dir: &Path` rty=`Resources` ret=r
 //@closure 1 skeleton=`paths.iter().map(<CLOSURE>).collect()` becomes=`join_paths(project_dir, &paths)`
 //@contract
